@@ -44,6 +44,9 @@ type rpStep struct {
 	// answer: unused namespace declarations called InResponseTo are added in flight to the Response and to every confirmation's data,
 	// reading this flow's request ID ("match") or somebody else's ("other"): they say nothing about what the message answers
 	NSIRT string `json:"unused_ns_named_in_response_to,omitempty"`
+	// answer: the IdP itself writes extension attributes x:InResponseTo (a foreign namespace) on the Response and on every
+	// confirmation's data before signing, reading this flow's request ID ("match") or somebody else's ("other")
+	QIRT string `json:"foreign_ns_attribute_in_response_to,omitempty"`
 	// deliver
 	Resp  int    `json:"resp,omitempty"`
 	Entry string `json:"entry,omitempty"` // xml | post | artifact
@@ -90,6 +93,9 @@ func genReplay(g *Rng, tier string) *Plan {
 			st.Pretty = g.Bool(0.25)
 			if g.Bool(0.15) {
 				st.NSIRT = Pick(g, "match", "match", "other")
+			}
+			if g.Bool(0.12) {
+				st.QIRT = Pick(g, "match", "match", "other")
 			}
 			steps = append(steps, st)
 			nresps++
@@ -302,6 +308,11 @@ func execReplay(t *testing.T, p *Plan) *Result {
 				v := pick(st.NSIRT)
 				spec.NSDecls = []NSDecl{{On: "Response", Prefix: "InResponseTo", Value: v}, {On: "SubjectConfirmationData", Prefix: "InResponseTo", Value: v}, {On: "SubjectConfirmation", Prefix: "InResponseTo", Value: v}}
 				res.probe("unused-namespace-declaration-named-in-response-to:" + st.NSIRT)
+			}
+			if st.QIRT != "" {
+				v := pick(st.QIRT)
+				spec.QualAttrs = []NSDecl{{On: "Response", Prefix: "InResponseTo", Value: v}, {On: "SubjectConfirmationData", Prefix: "InResponseTo", Value: v}}
+				res.probe("foreign-namespace-attribute-named-in-response-to:" + st.QIRT)
 			}
 			spec.Assertions = []AsrtSpec{a}
 			r.spec = spec
